@@ -120,7 +120,11 @@ func VerifDump(s *PfcpServer) string {
 		rx = append(rx, k)
 	}
 	for k, t := range s.txTrans {
-		tx = append(tx, fmt.Sprintf("%s/%d", k, t.retransCount))
+		armed := "a" // a retransmission timer is running: the request will be retried or abandoned
+		if t.timer == nil {
+			armed = "-"
+		}
+		tx = append(tx, fmt.Sprintf("%s/%d/%s", k, t.retransCount, armed))
 	}
 	sort.Strings(rx)
 	sort.Strings(tx)
